@@ -77,8 +77,9 @@ impl BlockQuantizedGemm {
             return Err(GemmError::QuantBitsNotSupported);
         }
 
-        // Handle K=0 case here so we can rely on K > 0 in the kernels.
-        if lhs_k == 0 {
+        // Handle K=0 case here so we can rely on K > 0 in the kernels. This
+        // also handles the case where the output is empty.
+        if lhs_k == 0 || out.is_empty() {
             out.fill(MaybeUninit::new(0.));
             return Ok(unsafe { out.assume_init() });
         }
@@ -696,11 +697,16 @@ impl<'a, T: Copy> BlockQuantizedMatrix<'a, T> {
         }
         let n_elem = 8 / bits;
 
-        let [_batch, _k_blocks, block_bytes] = quant.shape();
+        let [cols, k_blocks, block_bytes] = quant.shape();
 
         let block_size = block_bytes * n_elem.as_usize();
         if !block_size.is_power_of_two() || block_size < Self::MIN_BLOCK_SIZE {
             return Err(BlockQuantizedError::UnsupportedBlockSize);
+        }
+
+        // The kernels index `scales` using the shape of `quant`.
+        if scales.shape() != [cols, k_blocks] {
+            return Err(BlockQuantizedError::ScalesShapeMismatch);
         }
 
         Ok(Self {
@@ -817,6 +823,7 @@ mod tests {
         BlockQuantizedGemm, BlockQuantizedMatrix, ComputeMode, nbit_zero_point, pack_4bit_elements,
         quantize,
     };
+    use crate::errors::BlockQuantizedError;
 
     fn reference_gemm_f32_with_block_quantized_rhs(
         lhs: NdTensorView<f32, 2>,
@@ -891,6 +898,25 @@ mod tests {
         assert_eq!(mat.column_data(4, 1, 1), None);
         // Out of bounds K block.
         assert_eq!(mat.column_data(3, 2, 1), None);
+    }
+
+    #[test]
+    fn test_block_quantized_matrix_scales_shape_mismatch() {
+        let quants = NdTensor::<u8, 3>::zeros([4, 2, 16]);
+        for scales_shape in [[3, 2], [5, 2], [4, 1], [4, 3], [2, 4]] {
+            let scales = NdTensor::<f32, 2>::zeros(scales_shape);
+            let result = BlockQuantizedMatrix::new(
+                Contiguous::new(quants.view()).unwrap(),
+                Contiguous::new(scales.view()).unwrap(),
+                4,
+            );
+            assert_eq!(
+                result.err(),
+                Some(BlockQuantizedError::ScalesShapeMismatch),
+                "scales shape {:?}",
+                scales_shape
+            );
+        }
     }
 
     // The ONNX Runtime definition of MatMulNBits specifies that the block
@@ -1014,6 +1040,16 @@ mod tests {
             n_cols: 1,
             block_size: 32,
             n_blocks: 0,
+            compute: ComputeMode::Float,
+            tolerance: None,
+        });
+
+        // Test N=0.
+        cases.push(Case {
+            n_rows: 1,
+            n_cols: 0,
+            block_size: 32,
+            n_blocks: 2,
             compute: ComputeMode::Float,
             tolerance: None,
         });
